@@ -83,7 +83,8 @@ out, as SQLite lays it out, in SQLite's snapshot after the `k`-th commit (rowids
 `T.frames` stack frames available): `get_b_tree_root_page` on version `k` succeeds, and the rows it
 reports — by the leaf pages and by the `aggregate_leaf_cells` dictionary — are the rows stored in
 the snapshot, with the same rowids and column values, in traversal order; none lost, none invented,
-none from an older or a later state of the page. -/
+none from an older or a later state of the page.  (`hpd`: no page number occurs twice in the tree —
+the repaired `get_b_tree_root_page` refuses a b-tree in which a page is reached twice.) -/
 theorem version_rows (cfg : Config) (db : Database) (dbv : VersionIf) (w : Wal)
     (vs : List (Version × VersionIf)) (h : versionHistory cfg db dbv (some w) = .ok vs)
     (k : Nat) (ver : Version) (v : VersionIf) (hk : vs[k]? = some (ver, v))
@@ -92,13 +93,14 @@ theorem version_rows (cfg : Config) (db : Database) (dbv : VersionIf) (w : Wal)
     (T : TTree)
     (hT : TreeLaidOut (snapshotIf cfg.strict dbv db.dbSize.floor w.fh w.hdr.pageSize
       (groupFrames w.frames [] []).1 k) true T)
-    (frames : Nat) (hf : T.frames ≤ frames) (hnd : (T.leafCells.map (·.rowid)).Nodup) :
+    (frames : Nat) (hf : T.frames ≤ frames) (hpd : T.PagesDistinct)
+    (hnd : (T.leafCells.map (·.rowid)).Nodup) :
     ∃ t, getBTreeRoot v frames T.page = .ok t ∧
       Elementwise (fun s c => CellSpec.ReportedAs w.hdr.pageSize s c) T.leafCells (leafCells t) ∧
       (leafCells t).map Spec.cellRow = T.leafCells.map CellSpec.row ∧
       (aggregateLeafCells t []).1 = T.leafCells.length ∧
       (aggregateLeafCells t []).2.1.map (fun e => Spec.cellRow e.2) = T.leafCells.map CellSpec.row := by
-  exact Proofs.VersionRows.version_rows cfg db dbv w vs h k ver v hk hdb0 hu hu2 T hT frames hf hnd
+  exact Proofs.VersionRows.version_rows cfg db dbv w vs h k ver v hk hdb0 hu hu2 T hT frames hf hpd hnd
 
 /-- the same for index b-trees (C14): every entry, interior cells included -/
 theorem version_index_entries (cfg : Config) (db : Database) (dbv : VersionIf) (w : Wal)
@@ -109,13 +111,13 @@ theorem version_index_entries (cfg : Config) (db : Database) (dbv : VersionIf) (
     (T : TTree)
     (hT : TreeLaidOut (snapshotIf cfg.strict dbv db.dbSize.floor w.fh w.hdr.pageSize
       (groupFrames w.frames [] []).1 k) false T)
-    (frames : Nat) (hf : T.frames ≤ frames) :
+    (frames : Nat) (hf : T.frames ≤ frames) (hpd : T.PagesDistinct) :
     ∃ t, getBTreeRoot v frames T.page = .ok t ∧
       Elementwise (fun s c => CellSpec.ReportedAs w.hdr.pageSize s c) T.allCells (t.flatMap (·.cells)) ∧
       (t.flatMap (·.cells)).map Spec.cellRow = T.allCells.map CellSpec.row ∧
       Elementwise (fun s c => CellSpec.ReportedAs w.hdr.pageSize s c) T.leafCells (leafCells t) ∧
       (aggregateLeafCells t []).1 = T.leafCells.length := by
-  exact Proofs.VersionRows.version_index_entries cfg db dbv w vs h k ver v hk hdb0 hu hu2 T hT frames hf
+  exact Proofs.VersionRows.version_index_entries cfg db dbv w vs h k ver v hk hdb0 hu hu2 T hT frames hf hpd
 
 /-! ### a literal pair (the model does not verify frame checksums)
 
@@ -212,7 +214,7 @@ example : ∃ (w : Wal) (vs : List (Version × VersionIf)) (ver : Version) (v : 
         have hT := laidOutR w hps hr hl hread
         obtain ⟨t, ht, -, hrows, -⟩ := version_rows {} dbR dbvR w vs hvs 1 ver v hk (fun h => nomatch h)
           (by omega) (by omega) (.leaf 3 [row1]) hT 1 (by simp [TTree.frames])
-          (by simp [TTree.leafCells])
+          (by simp [TTree.PagesDistinct, TTree.nodes]) (by simp [TTree.leafCells])
         refine ⟨w, vs, ver, v, t, hw, hvs, hk, hT, ht, ?_⟩
         have hleaf : (TTree.leaf 3 [row1]).leafCells = [row1] := by simp [TTree.leafCells]
         rw [hrows, hleaf]
